@@ -407,7 +407,7 @@ class RefParser:
         nd = Node(r.name, trees, st, en)
         toks = self.tlog[n0:]
         # the matched text (suppressed terminals included); (start, end) above is the text of the terminals that are kept
-        nd.sstart, nd.send = (toks[0][0], max(max(e_ for _, e_ in toks), en)) if toks else (st, en)
+        nd.sstart, nd.send = (toks[0][0], max(max(t_[1] for t_ in toks), en)) if toks else (st, en)
         return p, nd
 
     def base(self, name, pos, ctx):
@@ -423,7 +423,7 @@ class RefParser:
         if not m:
             raise Fail()
         if m.end() > p:
-            self.tlog.append((p, m.end()))
+            self.tlog.append((p, m.end(), 'base', name))
         return m.end(), [self.mk(Tok(name, m.group(), p, m.end(), m), ctx, pos)]
 
     def ex(self, e, pos, ctx):
@@ -454,7 +454,7 @@ class RefParser:
                 tk = self.mk(Tok('lit', e.s, p, p + n), ctx, pos)
                 tk.written = t[p:p + n]
                 if n:
-                    self.tlog.append((p, p + n))
+                    self.tlog.append((p, p + n, 'lit', e.s))
                 return p + n, [tk]
             raise Fail()
         if isinstance(e, Re):
@@ -463,7 +463,7 @@ class RefParser:
             if not m:
                 raise Fail()
             if m.end() > p:
-                self.tlog.append((p, m.end()))
+                self.tlog.append((p, m.end(), 're', m.group()))
             return m.end(), ([self.mk(Tok('re', m.group(), p, m.end(), m), ctx, pos)] if m.end() > p else [])
         if isinstance(e, Ref):
             if e.name in BASE_NAMES and self.g.rule(e.name) is None:
